@@ -30,6 +30,19 @@ func genC10(t *rapid.T) C10Case {
 	}}
 	tree := wrapRoot(g.Program(rootTy(t)))
 	fixEmptyLists(tree)
+	// now and then a well-typed constant call is followed by its ill-typed twin: the same
+	// operator over arguments that PRINT the same but have another type ("1" for 1). The first
+	// folds, the second must stay and fail at run time.
+	if rapid.IntRange(0, 4).Draw(t, "twin") == 0 {
+		op := rapid.SampledFrom([]string{"+", "-", "*", "add", "c_sum", "="}).Draw(t, "twin_op")
+		a, b := rapid.Int64Range(0, 3).Draw(t, "twin_a"), rapid.Int64Range(0, 3).Draw(t, "twin_b")
+		good := m.Op(op, m.Const(a), m.Const(b))
+		bad := m.Op(op, m.Const(fmt.Sprint(a)), m.Const(b))
+		if rapid.Bool().Draw(t, "twin_bool") {
+			bad = m.Op(op, m.Const(a), m.Const(fmt.Sprint(b)))
+		}
+		tree = m.If(m.Op("eq", good, bad), tree, tree.Clone())
+	}
 	u := UniverseFor(t, tree, false)
 	u.Stateless = drawStateless(t)
 	// sometimes the integer constant is registered with a raw Go type (int, int32): the engine
